@@ -111,7 +111,7 @@ def run_case(case):
     stats['probes']['evictions'] = info.get('evictions', 0)
     stats['probes']['at_limit_writes'] = seen['at_limit']
     return {'violations': violations, 'digest': digest, 'steps': stats['ops'], 'switches': 0, 'fired': {},
-            'probes': stats['probes'], 'virtual_s': 0.0,
+            'probes': stats['probes'], 'virtual_s': stats.get('virtual_s', 0.0),
             'nontrivial': bool(info.get('evictions')) or bool(stats['probes'].get('cull_expired')),
             'outcome': {'ops': stats['ops'], 'evictions': info.get('evictions', 0)}}
 
